@@ -143,9 +143,9 @@ theorem mapM_roundtrip (fix : Bool) (l : List Client) (h : ∀ c ∈ l, Persista
 
 /-- Restart of a storage whose clients are all persistable and valid: it comes
 up, with a consistent index, the same clients and the same DHCP table. -/
-theorem restart_ok {fix : Bool} {s : Storage} (hi : Inv s.index)
+theorem restart_ok {fix : Bool} (src : RuntimeSources) {s : Storage} (hi : Inv s.index)
     (hp : ∀ c ∈ s.index.clients, Persistable fix c ∧ c.validate = none ∧ ∀ m ∈ c.macs, macOK m = true) :
-    ∃ s', s.restart fix = (s', .ok) ∧ Inv s'.index ∧ s'.index.clients.Perm s.index.clients ∧ s'.dhcp = s.dhcp := by
+    ∃ s', s.restart fix src = (s', .ok) ∧ Inv s'.index ∧ s'.index.clients.Perm s.index.clients ∧ s'.dhcp = s.dhcp := by
   have hperm := rangeByName_perm s.index
   have hp' : ∀ c ∈ s.index.rangeByName, Persistable fix c ∧ c.validate = none ∧ ∀ m ∈ c.macs, macOK m = true :=
     fun c hc => hp c (hperm.mem_iff.mp hc)
@@ -162,5 +162,29 @@ theorem restart_ok {fix : Bool} {s : Storage} (hi : Inv s.index)
     show ([] ++ s.index.rangeByName).Perm s.index.clients
     rw [List.nil_append]
     exact hperm
+
+theorem add_dhcp (s : Storage) (c : Client) : (s.add c).1.dhcp = s.dhcp := by
+  unfold Storage.add
+  cases c.validate with
+  | some e => rfl
+  | none =>
+    simp only
+    split
+    · rfl
+    · cases s.index.clashes c <;> rfl
+
+theorem addAll_dhcp {s s' : Storage} {cs : List Client} (h : addAll s cs = some s') : s'.dhcp = s.dhcp := by
+  induction cs generalizing s with
+  | nil => simp only [addAll, Option.some.injEq] at h; rw [← h]
+  | cons c rest ih =>
+    unfold addAll at h
+    have hd := add_dhcp s c
+    cases hr : s.add c with
+    | mk s1 r =>
+      rw [hr] at h hd
+      cases r with
+      | ok => exact (ih h).trans hd
+      | err e => cases h
+      | panic => cases h
 
 end AGH.C04
